@@ -58,10 +58,36 @@ class Env:
                 return S.expanded(name + ".json")
             return S.expanded_type(name)
 
-        return {"validator.Validator.get_expanded_schema": expanded_schema}
+        def lark_open(fr, self_obj, args, kwargs):
+            # lark's entry point: a stand-in parser (harnesses that drive the token loop replace it)
+            ip = SObj("InteractiveParser", {"parser_state": SObj("ParserState", {"value_stack": []}), "_tokens": []}, methods=("iter_parse", "resume_parse", "feed_token", "copy"))
+            return SObj("Lark", {"_ip": ip, "_open_kwargs": dict(kwargs)}, methods=("parse_interactive", "parse"))
+
+        return {
+            "validator.Validator.get_expanded_schema": expanded_schema,
+            "ext:lark.Lark": pai.ModRef("ext:lark.Lark"),
+            "ext:lark.Lark.open": lark_open,
+            "global:parser.lark_cython": None,
+        }
 
 
 _ENV: dict[int, Env] = {}
+
+
+def new_parser(I: pai.Interp, **kw) -> pai.Inst:
+    """A Parser built by its real constructor (lark's entry point is a stand-in, see default_stubs):
+    every attribute the constructor sets exists, whatever it is called."""
+    return I.instantiate("parser.Parser", [], kw)
+
+
+def new_validator(I: pai.Interp) -> pai.Inst:
+    return I.instantiate("validator.Validator", [], {})
+
+
+def construct(e: "Env", cls_qual: str, *args, **kw) -> pai.Inst:
+    """An instance of a repository class built by evaluating its real constructor (with the default
+    stand-ins for other libraries); usable with any interpreter afterwards."""
+    return e.interp(allow_fork=False).instantiate(cls_qual, list(args), kw)
 
 
 def env(ctx: Ctx) -> Env:
